@@ -415,7 +415,7 @@ struct PatternReader<'a> {
     data: &'a [u8],
     pos: usize,
     call: usize,
-    pattern: &'a [usize],
+    pattern: Vec<usize>,
 }
 
 impl<'a> Read for PatternReader<'a> {
@@ -434,25 +434,34 @@ impl<'a> Read for PatternReader<'a> {
     }
 }
 
+fn make_parser<'a>(doc: &'a [u8], feed: &Feed) -> PgnRawParser<PatternReader<'a>> {
+    match feed {
+        Feed::Default => PgnRawParser::new(PatternReader { data: doc, pos: 0, call: 0, pattern: vec![] }),
+        Feed::Chunk(n) => PgnRawParser::with_chunk_size(PatternReader { data: doc, pos: 0, call: 0, pattern: vec![] }, *n),
+        Feed::Pattern(n, pat) => PgnRawParser::with_chunk_size(PatternReader { data: doc, pos: 0, call: 0, pattern: pat.clone() }, *n),
+    }
+}
+
+fn to_yielded(item: Result<inkayaku_pgn::reader::PgnRaw, inkayaku_pgn::reader::PgnRawParserError>) -> Result<Yielded, String> {
+    match item {
+        Ok(raw) => {
+            let mut tags: Vec<(String, String)> = raw.tag_pairs.into_iter().collect();
+            tags.sort();
+            Ok(Yielded { tags, moves: raw.moves.into_iter().map(|m| (m.mv, m.annotation)).collect() })
+        }
+        Err(e) => Err(format!("{:?}", e)),
+    }
+}
+
 fn run_feed(doc: &[u8], feed: &Feed) -> Result<Vec<Result<Yielded, String>>, String> {
     guarded(|| {
-        let none: [usize; 0] = [];
-        let (mut parser, _) = match feed {
-            Feed::Default => (PgnRawParser::new(PatternReader { data: doc, pos: 0, call: 0, pattern: &none }), 0),
-            Feed::Chunk(n) => (PgnRawParser::with_chunk_size(PatternReader { data: doc, pos: 0, call: 0, pattern: &none }, *n), 0),
-            Feed::Pattern(n, pat) => (PgnRawParser::with_chunk_size(PatternReader { data: doc, pos: 0, call: 0, pattern: pat }, *n), 0),
-        };
+        let mut parser = make_parser(doc, feed);
         let mut out = Vec::new();
         let horizon = doc.len() + 2;
         loop {
             match parser.next() {
                 None => break,
-                Some(Ok(raw)) => {
-                    let mut tags: Vec<(String, String)> = raw.tag_pairs.into_iter().collect();
-                    tags.sort();
-                    out.push(Ok(Yielded { tags, moves: raw.moves.into_iter().map(|m| (m.mv, m.annotation)).collect() }));
-                }
-                Some(Err(e)) => out.push(Err(format!("{:?}", e))),
+                Some(item) => out.push(to_yielded(item)),
             }
             if out.len() > horizon {
                 out.push(Err("HORIZON: iterator does not terminate".to_string()));
@@ -460,6 +469,50 @@ fn run_feed(doc: &[u8], feed: &Feed) -> Result<Vec<Result<Yielded, String>>, Str
             }
         }
         out
+    })
+}
+
+/// the reader is an Iterator: everything the trait offers on top of `next` (nth, skip, step_by,
+/// count, last) must agree with plain iteration. Returns the first disagreement.
+fn iterator_methods_agree(doc: &[u8], feed: &Feed, plain: &[Result<Yielded, String>]) -> Result<Option<String>, String> {
+    guarded(|| {
+        let n = plain.len();
+        for k in 0..=n {
+            let got = make_parser(doc, feed).nth(k).map(to_yielded);
+            if got.as_ref() != plain.get(k) {
+                return Some(format!("nth({}) differs from the {}th item of plain iteration", k, k));
+            }
+            let got = make_parser(doc, feed).skip(k).next().map(to_yielded);
+            if got.as_ref() != plain.get(k) {
+                return Some(format!("skip({}).next() differs from the {}th item of plain iteration", k, k));
+            }
+        }
+        for step in [2usize, 3] {
+            let got: Vec<Result<Yielded, String>> = make_parser(doc, feed).step_by(step).take(n + 2).map(to_yielded).collect();
+            let want: Vec<Result<Yielded, String>> = plain.iter().step_by(step).cloned().collect();
+            if got != want {
+                return Some(format!("step_by({}) differs from every {}th item of plain iteration", step, step));
+            }
+        }
+        if make_parser(doc, feed).count() != n {
+            return Some("count() differs from the number of items of plain iteration".to_string());
+        }
+        if make_parser(doc, feed).last().map(to_yielded).as_ref() != plain.last() {
+            return Some("last() differs from the last item of plain iteration".to_string());
+        }
+        // two readers advanced alternately with nth(1): state is per reader
+        let mut a = make_parser(doc, feed);
+        let mut i = 0usize;
+        while let Some(item) = a.nth(1) {
+            i += 2;
+            if Some(&to_yielded(item)) != plain.get(i - 1) {
+                return Some(format!("repeated nth(1): item {} differs", i - 1));
+            }
+            if i > n + 4 {
+                return Some("repeated nth(1) does not terminate".to_string());
+            }
+        }
+        None
     })
 }
 
@@ -532,6 +585,17 @@ fn check_collections(rep: &Reporter, tier: Tier, runs: &AtomicU64) -> Value {
                     if let Some((sig, detail)) = compare(&exp, &got, &games, comments) {
                         if reported.insert(sig.clone()) {
                             rep.report(format!("collection:{}", sig), case(detail));
+                        }
+                    }
+                    if n <= 40 && (matches!(feed, Feed::Default) || matches!(feed, Feed::Chunk(1) | Feed::Chunk(2) | Feed::Chunk(7) | Feed::Chunk(64)) || matches!(feed, Feed::Pattern(2, _))) {
+                        match iterator_methods_agree(bytes, feed, &got) {
+                            Ok(None) => {}
+                            Ok(Some(what)) => {
+                                if reported.insert("iterator".to_string()) {
+                                    rep.report(format!("collection:iterator_method_differs:{}", what.split('(').next().unwrap_or("").trim()), case(json!({"what": what})));
+                                }
+                            }
+                            Err(m) => rep.report(format!("panic:{}", short(&m)), case(json!({"panic": m}))),
                         }
                     }
                     match &first {
